@@ -18,9 +18,12 @@ class Auto:
         self._sum = {}
         self._sum_active = set()
 
-    def summary(self, key):
-        """Interval of the integer returned by a workspace function, computed
-        bottom-up on demand (recursion -> declared type)."""
+    def summary(self, key, payload=False):
+        """Interval of the integer returned by a workspace function (or of
+        the success payload of its Option/Result), computed bottom-up on
+        demand (recursion -> declared type)."""
+        if payload:
+            return self._summary_pay(key)
         if key in self._sum:
             return self._sum[key]
         fn = self.prog.fns.get(key)
@@ -43,6 +46,113 @@ class Auto:
         finally:
             self._sum_active.discard(key)
         self._sum[key] = res
+        return res
+
+    # ------------------------------------------------------------------
+    def infer_params(self, cg, rounds=3):
+        """Assume-guarantee inference of integer parameter intervals for
+        crate-private functions of `jiff`: the hull of the argument intervals
+        over all call sites, iterated downwards from TOP, then verified (a
+        parameter whose final hull is not re-established is dropped to TOP).
+        Sound by induction over call depth: every call site is checked against
+        the callee's interval under the caller's own assumed intervals."""
+        from . import contracts as C
+        prog = self.prog
+        elig = {}
+        for f in prog.fns.values():
+            if f.crate != "jiff" or f.is_closure or f.get("reachable") or f.get("trait_item") or f.path in C.PARAM:
+                continue
+            ins = cg.redges.get(f.key, [])
+            if not ins or any(k != "call" for (_, k, _) in ins):
+                continue
+            idxs = [i for i in range(1, f["argc"] + 1) if f["locals"][i]["ty"] in PRIM and f["locals"][i]["ty"] not in ("bool", "char")]
+            if idxs:
+                elig[f.path] = (f, idxs)
+        base = dict(self.param_contracts)
+        cur = {}
+        def one_round(verify=False):
+            self._an.clear(); self._sum.clear()
+            pc = dict(base)
+            for path, d in cur.items():
+                pc[path] = dict(d)
+            self.param_contracts = pc
+            acc = {}
+            bad = set()
+            for g in prog.fns.values():
+                if g.crate != "jiff":
+                    continue
+                calls = [(bi, t) for bi, t in mir.iter_calls(g) if t.get("rkrate") == "jiff" and t.get("path") in elig and t.get("resolved")]
+                if not calls:
+                    continue
+                an = self.analyzer(g)
+                for bi, t in calls:
+                    st = an.state_before_term(bi)
+                    if st is None:
+                        continue   # infeasible call site
+                    f, idxs = elig[t["path"]]
+                    for i in idxs:
+                        v = an.read_op(st, t["args"][i - 1]) if i - 1 < len(t["args"]) else None
+                        iv = v.iv if v is not None and v.iv is not None else PRIM[f["locals"][i]["ty"]]
+                        old = acc.get((t["path"], i))
+                        acc[(t["path"], i)] = iv if old is None else (min(old[0], iv[0]), max(old[1], iv[1]))
+                        if verify:
+                            want = cur.get(t["path"], {}).get(i)
+                            if want is not None and not (want[0] <= iv[0] and iv[1] <= want[1]):
+                                bad.add((t["path"], i))
+            return acc, bad
+        for _ in range(rounds):
+            acc, _b = one_round()
+            nxt = {}
+            for (path, i), iv in acc.items():
+                f, _ = elig[path]
+                tr = PRIM[f["locals"][i]["ty"]]
+                if iv != tr:
+                    nxt.setdefault(path, {})[i] = iv
+            cur = nxt
+        # verification: drop whatever is not inductive
+        for _ in range(6):
+            acc, bad = one_round(verify=True)
+            if not bad:
+                break
+            for (path, i) in bad:
+                cur.get(path, {}).pop(i, None)
+        else:
+            cur = {}
+        self._an.clear(); self._sum.clear()
+        pc = dict(base)
+        for path, d in cur.items():
+            if d:
+                pc[path] = dict(d)
+        self.param_contracts = pc
+        self.inferred_params = {p: d for p, d in cur.items() if d}
+        return self.inferred_params
+
+    def _summary_pay(self, key):
+        from .absint import payload_type, join_pay
+        k2 = ("pay", key)
+        if k2 in self._sum:
+            return self._sum[k2]
+        fn = self.prog.fns.get(key)
+        if fn is None or payload_type(fn.get("ret")) is None or key in self._sum_active or len(self._sum_active) > 40:
+            return None
+        self._sum_active.add(key)
+        res = "bot"
+        try:
+            an = self.analyzer(fn)
+            if an.bailed:
+                res = None
+            else:
+                for bi, b in enumerate(fn.blocks):
+                    if b["term"]["t"] == "return" and bi in an.pre:
+                        v = an.pre[bi].vals.get((0,))
+                        res = join_pay(res, v.pay if v is not None else None)
+                        if res is None:
+                            break
+        finally:
+            self._sum_active.discard(key)
+        if res == "bot":
+            res = None
+        self._sum[k2] = res
         return res
 
     def analyzer(self, fn):
